@@ -307,7 +307,9 @@ def s_unit_inj(cb):
                 target=dict(cls=recs['S_'], name=fn, nparams=2 if ev else 1),
                 consts=S_CONSTS, need_consts=['ArgsT.STATE_COUNT'], ghost=GHOST + ['uint32_t g_ti[16][3]; uint8_t g_sti[16][3];'],
                 calls=S_CALLS, contracts=contracts,
-                bounded='number of injections k = 3 (witness); k = 0 is covered by the structure.S_ units')
+                # not a bounded stand-in (every loop and input is unbounded): the instantiation is fixed, like the payload type
+                instantiation='number of injections k = 3 (witness type C : StateT<Inj1, Inj2, Inj3>; the variadic A_<First, Rest...> recursion and its base case '
+                              'A_<First> are both part of it); k = 0 is covered by the structure.S_ units')
 
 UNITS += [s_unit_inj(cb) for cb in ('entryGuard', 'enter', 'reenter', 'preUpdate', 'update', 'postUpdate', 'preReact', 'react', 'postReact', 'query', 'exitGuard', 'exit')]
 
